@@ -829,6 +829,115 @@ func TestErrors(t *testing.T) {
 	}
 }
 
+// ---- natives that re-enter the VM and go on using their arguments -----------------------------
+
+type ReCase struct {
+	Extra  int  `json:"extra"`  // extra leading arguments of the native (arity = extra + 3)
+	Nested int  `json:"nested"` // how many nested calls it makes (1..3)
+	Via    bool `json:"via_call"` // nested call through vm.Call(name) instead of vm.Func(value)
+	InLoop bool `json:"in_loop"`
+}
+
+func checkReentrant(c *ReCase) (f *ev.Failure) {
+	mk := func(msg, src string) *ev.Failure {
+		return &ev.Failure{Kind: "reentrant", Case: c, Msg: fmt.Sprintf("native with %d extra args making %d nested call(s): %s\n--- script\n%s", c.Extra, c.Nested, msg, src)}
+	}
+	defer func() {
+		if r := recover(); r != nil {
+			f = mk(fmt.Sprintf("host panic: %v", r), "")
+		}
+	}()
+	vm := goat.New()
+	var seenAfter [][]string
+	argc := c.Extra + 3
+	vm.Set("host.twice", goatlang.NewFunc(argc, 1, func(v *goatlang.VM, args []goatlang.Value) goatlang.Value {
+		fn, a, b := args[c.Extra], args[c.Extra+1], args[c.Extra+2]
+		sum := 0
+		for k := 0; k < c.Nested; k++ {
+			var rets []goatlang.Value
+			var err error
+			arg := goatlang.Int(a.Int() + k)
+			if c.Via {
+				rets, err = v.Call("main.leaf", 1, arg)
+			} else {
+				rets, err = v.Func(fn, 1, arg)
+			}
+			if err != nil {
+				panic(err)
+			}
+			sum = sum*100 + rets[0].Int()
+		}
+		// the native goes on using its own arguments after the nested calls
+		var s []string
+		for _, x := range args {
+			if x.Type() != goatlang.TypeFunc {
+				s = append(s, show(x))
+			}
+		}
+		seenAfter = append(seenAfter, s)
+		return goatlang.Int(sum*1000 + a.Int()*10 + b.Int())
+	}))
+	var extra []string
+	var wantSeen []string
+	for i := 0; i < c.Extra; i++ {
+		extra = append(extra, fmt.Sprintf("\"e%d\"", i))
+		wantSeen = append(wantSeen, fmt.Sprintf("%d:e%d", goatlang.TypeString, i))
+	}
+	wantSeen = append(wantSeen, "1:3", "1:4")
+	call := "host.twice(" + strings.Join(append(extra, "leaf", "3", "4"), ", ") + ")"
+	src := "import \"fmt\"\nimport \"host\"\nfunc leaf(n int) int {\n\tt := n * 2\n\treturn t\n}\n"
+	calls := 1
+	if c.InLoop {
+		src += "for i := 0; i < 3; i++ {\n\tfmt.Println(" + call + ")\n}\n"
+		calls = 3
+	} else {
+		src += "fmt.Println(" + call + ")\n"
+	}
+	r := vm.Eval(nil, src, goat.DefaultBudget)
+	if r.Failed() {
+		return mk("script failed: "+r.ErrString(), src)
+	}
+	sum := 0
+	for k := 0; k < c.Nested; k++ {
+		sum = sum*100 + (3+k)*2
+	}
+	want := strings.Repeat(fmt.Sprintln(sum*1000+34), calls)
+	if r.Stdout != want {
+		return mk(fmt.Sprintf("script printed %q, expected %q", r.Stdout, want), src)
+	}
+	for _, s := range seenAfter {
+		got := strings.ReplaceAll(strings.Join(s, ","), "23:", "1:")
+		if got != strings.Join(wantSeen, ",") {
+			return mk(fmt.Sprintf("after its nested calls the native sees the arguments [%s], the script passed [%s] (type:value)", got, strings.Join(wantSeen, ",")), src)
+		}
+	}
+	return nil
+}
+
+func TestReentrant(t *testing.T) {
+	r := ev.R()
+	r.Disjoint()
+	for extra := 0; extra <= 3; extra++ {
+		for nested := 1; nested <= 3; nested++ {
+			for _, via := range []bool{false, true} {
+				for _, loop := range []bool{false, true} {
+					c := &ReCase{Extra: extra, Nested: nested, Via: via, InLoop: loop}
+					r.Eval(1)
+					r.NontrivialN(1)
+					r.Class("reentrant_native")
+					if extra == 1 && nested == 2 && !via && !loop {
+						r.Sample(c)
+					}
+					if f := checkReentrant(c); f != nil {
+						r.Fail(t, f)
+						return
+					}
+				}
+			}
+		}
+	}
+}
+
 // ---- replay -----------------------------------------------------------------------------------
 
 func TestReplay(t *testing.T) {
@@ -851,5 +960,10 @@ func TestReplay(t *testing.T) {
 			return checkErr(&c)
 		},
 		"scalar": func(raw json.RawMessage) *ev.Failure { return nil },
+		"reentrant": func(raw json.RawMessage) *ev.Failure {
+			var c ReCase
+			json.Unmarshal(raw, &c)
+			return checkReentrant(&c)
+		},
 	})
 }
